@@ -967,6 +967,16 @@ def reader_reads(model, fref, in_index=1, version=None, inline=True, _depth=0):
                 if attr is None:
                     continue
             val = ev.value
+            # entry-by-entry copy of a mapping of the document:  for k in D: self.x[k] = D[k]   ==   self.x = dict(D)
+            if tgt[0] == "sub" and cx.self_attr(tgt[1]) is not None and ev.loops and tgt[2] == ("elem", ev.loops[-1][1], ev.loops[-1][0]) \
+                    and val == ("sub", T.unwrap(ev.loops[-1][1]), tgt[2]) and not own_guards(cx, ev):
+                D = T.unwrap(ev.loops[-1][1])
+                reset = [e2 for e2 in cx.events if e2.kind == "store" and e2.target == tgt[1] and e2.seq < ev.seq
+                         and T.unwrap(e2.value) == ("dict", ())]
+                if reset and source_accesses(cx, D, IN):
+                    reads[:] = [r for r in reads if r.ev is not reset[-1]]
+                    reads.append(Read(attr, cx.norm(D), source_accesses(cx, D, IN), non_gate_guards(ev), ev.loops[:-1], ev, fref.qname))
+                    continue
             if val[0] == "ifexp":
                 # x = A if test else B   ==   if test: x = A  else: x = B
                 for branch, pol in ((val[2], True), (val[3], False)):
@@ -1498,4 +1508,23 @@ def flows_to(cx, store):
             gs = tuple(b.guards) + tuple(g for g in own if g not in b.guards)
             out.append(Cand(a, gs, b.loops if len(b.loops) >= len(store.loops) else store.loops, store, b,
                             b.extra == "inlined-return"))
+    return out
+
+
+def guard_atoms(guards):
+    """the conjunction of guards as a set of canonical atomic conditions: positive ``a and b`` and negated ``a or b`` are split,
+    negations and negative operators are normalised (see canon_guard)"""
+    out = set()
+
+    def add(t, pol):
+        t, pol = T.strip_not(t, pol)
+        if t[0] == "boolop" and ((t[1] == "and" and pol) or (t[1] == "or" and not pol)):
+            for x in t[2]:
+                add(x, pol)
+            return
+        out.add(canon_guard((t, pol)))
+    for g in guards:
+        if g[0][0] == "exc":
+            continue
+        add(g[0], g[1])
     return out
